@@ -18,6 +18,12 @@ def obligations(tier):
             for ind in (("SMA", dict(period=2)), ("TR", dict())):
                 nn = n if tf is None else n + 2
                 obs.append(Ob(f"{host}/{ind[0]}/tf={tf}/n={nn}", dict(tf=tf, host=host, ind=list(ind), n=nn), CFG, weight=nn, budget_s=900))
+    # a Hexital on the base timeframe whose MEMBER collapses to T2: the member's manager is seeded from copies of the
+    # (already converted) base candles. start=2: the first candle sits alone on a bucket edge
+    for start in (1, 2):
+        nn = n + 2
+        obs.append(Ob(f"hexital-member-tf/SMA/tf=T2/start={start}/n={nn}", dict(tf="T2", host="hexital-member", ind=["SMA", dict(period=2)], n=nn, start=start), CFG, weight=nn, budget_s=900))
+        obs.append(Ob(f"indicator/SMA/tf=T2/start={start}/n={nn}", dict(tf="T2", host="indicator", ind=["SMA", dict(period=2)], n=nn, start=2), CFG, weight=nn, budget_s=900)) if start == 2 else None
     # Heikin-Ashi under a candle lifespan: the retained candles are the tail of the same recurrence, however the
     # stream was fed (also when a whole window expires within one call)
     for host in ("indicator", "hexital"):
@@ -80,7 +86,7 @@ def run(ctx, P):
     n, tf = P["n"], P["tf"]
     name, kw = P["ind"]
     _, _, Candle, _, Hexital = lib()
-    cs = mk_candles(ctx, n, zero_ok=True)     # the HA formulas have no division: prices of exactly 0 are inside the domain
+    cs = mk_candles(ctx, n, zero_ok=True, start=GRID0 + 60 * P.get("start", 1))     # the HA formulas have no division: prices of exactly 0 are inside the domain
     if tf:
         ts = [ctx.sec_of(c.timestamp) for c in cs]
         raw = [dict(ts=b["ts"], open=b["open"], high=b["high"], low=b["low"], close=b["close"], volume=b["volume"]) for b in ref_resample(ctx, cs, ts, tf_secs(tf))]
@@ -101,6 +107,10 @@ def run(ctx, P):
             ind = build(name, kw, candles=src[:pre], **common)
             ind.calculate()
             host = ind
+        elif P["host"] == "hexital-member":
+            ind = build(name, kw, timeframe=tf)
+            host = Hexital("h", src[:pre], [ind], candlestick_type="HA")
+            host.calculate()
         else:
             ind = build(name, kw)
             host = Hexital("h", src[:pre], [ind], **common)
